@@ -154,6 +154,10 @@ func sameNamePairs(prefix string) []SCase {
 		{"items-type", J{"type": arr, "items": J{"type": in}}, J{"type": arr, "items": J{"type": str}}, v, v},
 		{"keyword-presence", J{"type": str, "minLength": 2}, J{"type": str}, v, v},
 		{"format", J{"type": str, "format": "date"}, J{"type": str}, v, v},
+		{"ref-target", J{"$ref": "#/$defs/RS"}, J{"$ref": "#/$defs/RI"}, v, v},
+		{"anyOf-branches", J{"anyOf": A{J{"type": "object", "properties": J{"a": J{"type": str}}, "required": A{"a"}}, J{"type": "object", "properties": J{"b": J{"type": in}}, "required": A{"b"}}}},
+			J{"anyOf": A{J{"type": "object", "properties": J{"a": J{"type": in}}, "required": A{"a"}}, J{"type": "object", "properties": J{"b": J{"type": in}}, "required": A{"b"}}}}, v, v},
+		{"items-ref-target", J{"type": arr, "items": J{"$ref": "#/$defs/RS"}}, J{"type": arr, "items": J{"$ref": "#/$defs/RI"}}, v, v},
 	}
 	var out []SCase
 	for _, p := range pairs {
@@ -171,7 +175,8 @@ func sameNamePairs(prefix string) []SCase {
 			}
 			out = append(out, SCase{ID: fmt.Sprintf("%s/same-name-pair/%s/order=%d", prefix, p.name, order), Cfg: baseCfg(),
 				Axes:   map[string]string{"pos": "same-name-pair", "leaf": p.name},
-				Schema: J{"type": "object", "properties": J{"x": J{"$ref": "#/$defs/limits"}, "y": J{"$ref": "#/$defs/Limits"}}, "$defs": J{"limits": mk(a, ra), "Limits": mk(b, rb)}}})
+				Schema: J{"type": "object", "properties": J{"x": J{"$ref": "#/$defs/limits"}, "y": J{"$ref": "#/$defs/Limits"}},
+					"$defs": J{"limits": mk(a, ra), "Limits": mk(b, rb), "RS": J{"type": "string", "minLength": 1}, "RI": J{"type": "integer", "minimum": 0}}}})
 		}
 	}
 	return out
